@@ -190,3 +190,31 @@ def r_token(rep: Report, repo: Repo, method: ast.FunctionDef, site, where: str, 
         detail = f"tokenize arguments {sorted(targs)}; arrays passed to the block function {arrays}; not covered: {missing}"
     rep.ob("R-TOKEN", afile, where, "the dask task name is tokenised over every array passed to the block function", ok, detail,
            toks[0] if toks else "dask_name", line=site.line)
+
+
+# ------------------------------------------------------------------------------- R-NOEXIT
+
+
+def no_early_exit(rep: Report, sc, file: str, fn: str, what: str, loops=None, allowed=()):
+    """Loops that must visit every element have no break / continue / return other than the listed (kind, last-guard) pairs."""
+    def inside(region, L):
+        r = region
+        while r is not None:
+            if r is L:
+                return True
+            r = r.parent
+        return False
+    Ls = loops if loops is not None else [r for r in sc.regions if r.kind == "loop"]
+    bad = []
+    for e in sc.exits:
+        if e.kind == "return" and e.region.kind == "line" and e.region.parent is None:
+            continue
+        if not any(inside(e.region, L) for L in Ls):
+            continue
+        key = (e.kind, e.guards[-1] if e.guards else "")
+        if key in allowed:
+            continue
+        bad.append(e)
+    rep.ob("R-NOEXIT", file, fn, f"{what}: every element is visited (no early exit from the loop)", not bad,
+           f"`{norm_stmt(bad[0].stmt)}` under {list(bad[0].guards)[-1:]} leaves or skips part of the loop" if bad else "",
+           bad[0].stmt if bad else f"{fn}: exits of {what}")
